@@ -16,7 +16,7 @@ RULE = ("generated relocatable families (no start-of-data reference, no class al
 ASSUMPTIONS = ["the reference trace (bv/ir.py) is used only to decide when the suffix comparison is skipped",
                "failing inputs are compared for prefix/offset only (the property speaks of bytes appended after the parsed region)"]
 
-PROF = gen.profile(move=0.3, begins=False, align_opt=False, seq_aligned=False, rawcb=False, until_p=0.6,
+PROF = gen.profile(defaults=0.3, move=0.3, begins=False, align_opt=False, seq_aligned=False, rawcb=False, until_p=0.6,
                    w={"int": 4, "data": 5, "bits": 1, "ref": 3, "refsel": 2, "seq": 6, "opt": 3, "em": 1})
 
 
